@@ -27,6 +27,7 @@ const (
 	abInconclusive
 	abDeadAfterViolation
 	abHalt
+	abBlocked // the running goroutine cannot make progress (channel operation with no partner)
 )
 
 // pathAbort ends the current path (panics through all frames without running target defers).
